@@ -169,7 +169,7 @@ theorem runs_decodeStreamWithSkip (eb kd : DecOpts → DecM Geometry) (dopts : D
     (henc : encodeGeometryFull ch g md opts = some (bs, encs)) :
     Runs (decodeStreamWith eb kd dopts) 0 bs ⟨expectedGeometrySkip dopts.skip g encs, md⟩
       (if g.isMesh then bsVersion 2 2 else bsVersion 2 3) := by
-  unfold encodeGeometryFull at henc
+  unfold encodeGeometryFull encodeGeometryCore at henc
   split at henc
   · cases henc
   · rename_i mdBytes hmdb
@@ -194,9 +194,9 @@ theorem runs_decodeStreamWithSkip (eb kd : DecOpts → DecM Geometry) (dopts : D
           rw [if_neg (by show ¬ (false = true); exact Bool.false_ne_true),
             if_neg (by show ¬ (false = true); exact Bool.false_ne_true)]
           refine Runs.bind0 (Runs.setVersion _ 0) ?_
-          have hconn := runs_decodeSeqConnectivity ch opts g.numPoints g.faces gd (bsVersion 2 2)
+          have hconn := runs_decodeSeqConnectivity (ch.resolved g opts) opts g.numPoints g.faces gd (bsVersion 2 2)
             (Nat.le_refl _) hok.faces hok.points31 hok.facesValid hgd
-          have hatts := runs_decodePointAttributes dopts ch opts g.numPoints (bsVersion 2 2) g.atts ab encs'
+          have hatts := runs_decodePointAttributes dopts (ch.resolved g opts) opts g.numPoints (bsVersion 2 2) g.atts ab encs'
             (by decide) hok.points hok.points31 hok.natts hok.atts hab
           refine runs_metadataStep _ md mdBytes _ _ (bsVersion 2 2) (bsVersion 2 2) _ (by decide) rfl hmd hmdb ?_
           rw [if_neg (by show ¬ (false = true); exact Bool.false_ne_true),
@@ -214,7 +214,7 @@ theorem runs_decodeStreamWithSkip (eb kd : DecOpts → DecM Geometry) (dopts : D
           rw [if_neg (by show ¬ (false = true); exact Bool.false_ne_true),
             if_neg (by show ¬ (false = true); exact Bool.false_ne_true)]
           refine Runs.bind0 (Runs.setVersion _ 0) ?_
-          have hatts := runs_decodePointAttributes dopts ch opts g.numPoints (bsVersion 2 3) g.atts ab encs'
+          have hatts := runs_decodePointAttributes dopts (ch.resolved g opts) opts g.numPoints (bsVersion 2 3) g.atts ab encs'
             (by decide) hok.points hok.points31 hok.natts hok.atts hab
           have hp31 := hok.points31
           have hnp : g.numPoints % 2 ^ 32 = g.numPoints := Nat.mod_eq_of_lt (by omega)
@@ -282,7 +282,7 @@ theorem expectedGeometry_eq (ch : Choices) (g : Geometry) (md : Option GeometryM
     (opts : EncOpts) (bs : Bytes) (encs : List AttEnc)
     (henc : encodeGeometryFull ch g md opts = some (bs, encs)) :
     expectedGeometry g encs = expected g opts := by
-  unfold encodeGeometryFull at henc
+  unfold encodeGeometryFull encodeGeometryCore at henc
   split at henc
   · cases henc
   · dsimp only at henc
@@ -315,7 +315,7 @@ theorem expectedGeometry_eq (ch : Choices) (g : Geometry) (md : Option GeometryM
               obtain ⟨_, rfl⟩ := hsb
               -- pointwise
               have key : ∀ (l : List Attribute) (k : Nat) (r : List AttEnc),
-                  allSome ((zipIdxFrom k l).map fun ia => encodeAttribute ch opts g.numPoints ia.1 ia.2) = some r →
+                  allSome ((zipIdxFrom k l).map fun ia => encodeAttribute (ch.resolved g opts) opts g.numPoints ia.1 ia.2) = some r →
                   List.zipWith (expectedAttribute g.numPoints) l r =
                     (zipIdxFrom k l).map fun ia => expectedAttributeOf opts g.numPoints ia.1 ia.2 := by
                 intro l
@@ -327,7 +327,7 @@ theorem expectedGeometry_eq (ch : Choices) (g : Geometry) (md : Option GeometryM
                 | cons a as ih =>
                   intro k r h
                   simp only [zipIdxFrom, List.map_cons] at h
-                  cases hb : encodeAttribute ch opts g.numPoints k a with
+                  cases hb : encodeAttribute (ch.resolved g opts) opts g.numPoints k a with
                   | none => rw [hb] at h; simp [allSome] at h
                   | some b =>
                     rw [hb] at h
@@ -338,7 +338,7 @@ theorem expectedGeometry_eq (ch : Choices) (g : Geometry) (md : Option GeometryM
                       simp only [Option.some.injEq] at h
                       subst h
                       simp only [List.zipWith_cons_cons, zipIdxFrom, List.map_cons, List.cons.injEq]
-                      exact ⟨expectedAttribute_eq ch opts g.numPoints k a b hb, ih (k + 1) bs' hbs⟩
+                      exact ⟨expectedAttribute_eq (ch.resolved g opts) opts g.numPoints k a b hb, ih (k + 1) bs' hbs⟩
               exact key g.atts 0 encs3 hall
 
 /-! ### skip decode: choice-free form -/
@@ -346,8 +346,9 @@ theorem expectedGeometry_eq (ch : Choices) (g : Geometry) (md : Option GeometryM
 theorem encodeGeometryFull_atts (ch : Choices) (g : Geometry) (md : Option GeometryMetadata)
     (opts : EncOpts) (bs : Bytes) (encs : List AttEnc)
     (henc : encodeGeometryFull ch g md opts = some (bs, encs)) :
-    allSome ((zipIdxFrom 0 g.atts).map fun ia => encodeAttribute ch opts g.numPoints ia.1 ia.2) = some encs := by
-  unfold encodeGeometryFull at henc
+    allSome ((zipIdxFrom 0 g.atts).map fun ia =>
+      encodeAttribute (ch.resolved g opts) opts g.numPoints ia.1 ia.2) = some encs := by
+  unfold encodeGeometryFull encodeGeometryCore at henc
   split at henc
   · cases henc
   · dsimp only at henc
@@ -439,8 +440,8 @@ theorem expectedGeometrySkip_eq (skip : List Nat) (ch : Choices) (g : Geometry)
     expectedGeometrySkip skip g encs = expectedSkip skip g opts := by
   unfold expectedGeometrySkip expectedSkip
   congr 1
-  exact zipWith_eq_of_allSome ch opts g.numPoints _ _
-    (fun i a e h => expectedAttributeSkip_eq skip ch opts g.numPoints i a e h) g.atts 0 encs
+  exact zipWith_eq_of_allSome (ch.resolved g opts) opts g.numPoints _ _
+    (fun i a e h => expectedAttributeSkip_eq skip (ch.resolved g opts) opts g.numPoints i a e h) g.atts 0 encs
     (encodeGeometryFull_atts ch g md opts bs encs henc)
 
 /-! ### applying the described transform to a skipped attribute gives the ordinary decode (C10) -/
@@ -506,8 +507,8 @@ theorem encodeAttribute_of_index (ch : Choices) (g : Geometry) (md : Option Geom
     (opts : EncOpts) (bs : Bytes) (encs : List AttEnc)
     (henc : encodeGeometryFull ch g md opts = some (bs, encs)) (i : Nat) (a : Attribute)
     (hi : g.atts[i]? = some a) :
-    ∃ e, encs[i]? = some e ∧ encodeAttribute ch opts g.numPoints i a = some e := by
-  have := allSome_zipIdxFrom_index (fun i a => encodeAttribute ch opts g.numPoints i a) g.atts 0 encs
+    ∃ e, encs[i]? = some e ∧ encodeAttribute (ch.resolved g opts) opts g.numPoints i a = some e := by
+  have := allSome_zipIdxFrom_index (fun i a => encodeAttribute (ch.resolved g opts) opts g.numPoints i a) g.atts 0 encs
     (encodeGeometryFull_atts ch g md opts bs encs henc) i a hi
   simpa using this
 
